@@ -37,6 +37,14 @@ TARGETS = [
     Target('body_read', B, r'virtual ssize_t read\(void \*buf, size_t count\) override', index=0, count=2, rules=[
         fields_rule(['m_close_delim', 'm_body_remain', 'm_partial_body_remain', 'm_partial_body_buf'], min_fires=8),
         (r'std::min\(', 'std_min(', 1), (r'\bmemcpy\(', 'memcpy_(', 1), (r'm_stream->read\(', 'STREAM_read(this->m_stream, ', 1)]),
+    Target('body_size', 'net/http/message.cpp', r'size_t Message::body_size\(\) const', rules=[
+        (r'm_verb == Verb::HEAD', 'this->m_verb == VERB_HEAD', 1),
+        (r'(?:auto|__auto_type) it = headers\.find\("Content-Length"\);', 'int it = HDR_find_cl(this);', 0), (r'(?:auto|__auto_type) it = headers\.find\("Content-Range"\);', 'int it = HDR_find_cr(this);', 0),
+        (r'\bit = headers\.find\("Content-Range"\);', 'it = HDR_find_cr(this);', 0), (r'\bit = headers\.find\("Content-Length"\);', 'it = HDR_find_cl(this);', 0),
+        (r'headers\.end\(\)', 'HDR_END', 2), (r'estring_view\(it\.second\(\)\)\.to_uint64\(\)', 'HDR_to_u64(it)', 0),
+        (r'headers\.content_length\(\)', 'HDR_content_length(this)', 0), (r'headers\.chunked\(\)', 'HDR_chunked(this)', 1), (r'(?<![\w>.])m_abandon\b', 'this->m_abandon', 1),
+        (r'sscanf\(it\.second\(\)\.data\(\), "bytes %zu-%zu", &start, &end\)', 'sscanf_range_(it, &start, &end)', 1),
+        (r'sscanf\(it\.second\(\)\.data\(\), "bytes \*/%zu", &end\)', 'sscanf_total_(it, &end)', 1)]),
     Target('append_bytes_head', 'net/http/message.cpp', r'(?<=int Message::append_bytes\(uint16_t size\) \{)', region_end=r'Parser p\(', rules=[
         (r'LOG_ERROR_RETURN\((\w+), (-?\w+),[^;]*;', r'return \2;', 1),
         (r'std::string_view sv\(m_buf \+ m_buf_size, size\);', 'struct sv_ sv = { this->m_buf + this->m_buf_size, size };', 1),
@@ -46,13 +54,14 @@ TARGETS = [
         (r'm_body = \{([^,]*), uint16_t\(([^}]*)\)\};', r'this->m_body = (struct rsv16){ \1, (uint16_t)(\2) };', 1),
         fields_rule(['m_buf', 'm_buf_size', 'm_buf_capacity', 'message_status'])]),
 ]
-UNITS = {'msg.c': 'msg.c.in', 'http.c': 'http.c.in'}
+UNITS = {'msg.c': 'msg.c.in', 'http.c': 'http.c.in', 'bodysize.c': 'bodysize.c.in'}
 PROOFS = [
     Proof('message/append_bytes', 'msg.c', 'h_append_bytes', kind='L', min_obligations=5, canaries=3),
     Proof('parser/cursor', 'http.c', 'h_parser', kind='L', min_obligations=5, backend='cadical'),
     Proof('headers/kv_add', 'http.c', 'h_kv_add', kind='L', min_obligations=3, backend='cadical'),
     Proof('headers/parse', 'http.c', 'h_parse', kind='L', min_obligations=5, backend='cadical', timeout=600),
     Proof('body/read', 'http.c', 'h_body_read', kind='L', min_obligations=5, backend='cadical'),
+    Proof('message/body_size', 'bodysize.c', 'h_body_size', kind='L', min_obligations=4),
 ]
 NATIVES = [Native('frag', 'frag.cpp', extra_src=['inc_body.cpp', 'inc_message.cpp', 'inc_headers.cpp', 'inc_estring.cpp'], args_quick=[150], args_thorough=[5000], timeout=1800, link_photon=True, ldflags=['-lssl', '-lcrypto', '-lcurl', '-laio', '-lz']),
            Native('native', 'native.cpp', args_quick=[20000], args_thorough=[2000000], timeout=1800, link_photon=True)]
